@@ -28,8 +28,14 @@ def _run(ctx):
         _must_fail(ctx, "mc_mutant", "MC_Codec.tla", "MC_Codec_mutant.cfg", "the colliding-sentinel mutant of Codec.tla")
     beh = ctx.path("behaviours.ndjson")
     if ctx.replay:
-        raise lib.ToolError("single-case replay is not supported for Codec; the violation file holds the exact input bytes "
-                            "(field `behaviour.input` / `behaviour.corruption`); re-run the tier: %s" % ctx.replay)
+        if pid != "C27":
+            raise lib.ToolError("single-case replay exists for record-level C27 cases only; re-run the tier: %s" % ctx.replay)
+        open(beh, "w").close()
+        res = lib.vh(ctx, "codec", beh, props=[pid], opts={"replay_file": ctx.replay}, timeout=600)
+        r = res["per_property"][pid]
+        if r.get("notes", {}).get("fidelity_error"):
+            raise lib.ToolError(r["notes"]["fidelity_error"])
+        return lib.finish(ctx, r, "single replayed case: " + ctx.replay)
     gen = lib.tlc(ctx, "gen", "Gen_Codec.tla", "Gen_Codec_thorough.cfg" if th else "Gen_Codec.cfg", workers=4, timeout=3000,
                   count=False)
     n = lib.extract_replays(gen["out"], beh)
